@@ -1228,19 +1228,20 @@ def _add_tempo_if_unique(position, part, tempo):
     (whether redundant or conflicting)
     """
     point = part.get_point(position)
-    if point is not None:
-        tempos = point.starting_objects.get(score.Tempo, [])
-        if tempos == []:
-            part.add(tempo, position)
-        else:
-            warnings.warn("not adding duplicate or conflicting tempo indication")
+    tempos = [] if point is None else point.starting_objects.get(score.Tempo, [])
+    if len(tempos) == 0:
+        part.add(tempo, position)
+    else:
+        warnings.warn("not adding duplicate or conflicting tempo indication")
 
 
 def _handle_sound(e, position, part):
     if "tempo" in e.attrib:
-        tempo = score.Tempo(int(e.attrib["tempo"]), "q")
+        # the tempo attribute is a decimal number of quarter notes per minute
+        qtempo = float(e.attrib["tempo"])
+        tempo = score.Tempo(int(qtempo) if qtempo == int(qtempo) else qtempo, "q")
         # part.add_starting_object(position, tempo)
-        (position, part, tempo)
+        _add_tempo_if_unique(position, part, tempo)
 
 
 def _handle_note(e, position, part, ongoing, prev_note, doc_order, prev_beam=None):
